@@ -39,7 +39,7 @@ def make_reflector(s):
 
 
 def random_scene(rng, nlayer=None, lossless=False, isothermal=None, substrate="random", atmosphere=False,
-                 microstructure="exponential", max_layers=5, thick=(0.05, 2.0), frequency=None):
+                 microstructure="exponential", max_layers=5, thick=(0.05, 2.0), frequency=None, active=False):
     frequency = float(rng.choice([1.4e9, 6.9e9, 10.65e9, 18.7e9, 36.5e9, 89e9])) if frequency is None else float(frequency)
     nl = int(rng.integers(1, max_layers + 1)) if nlayer is None else nlayer
     dens = [float(x) for x in rng.uniform(120, 600, nl).round(1)]
@@ -54,6 +54,8 @@ def random_scene(rng, nlayer=None, lossless=False, isothermal=None, substrate="r
         sc["micro"] = {}
     if lossless:
         sc["ice_permittivity"] = [3.18, 0.0]
+    if substrate == "random" and active:
+        substrate = [None, "flat", "soil_wegmuller"][int(rng.integers(0, 3))]      # the reflector refuses 3 polarisations
     if substrate == "random":
         substrate = str(rng.choice(SPECULAR_SUBSTRATES + [None], p=[0.25, 0.15, 0.15, 0.15, 0.1, 0.2])) if True else None
         if substrate == "None":
